@@ -428,6 +428,23 @@ example : dftDefaultRangeStatus [4, 1, 2] false = none ∧
 
 /-! ## Constructor and planner of the plain DFT operators -/
 
+/-- **What `pyfftw_call` computes, for both values of `normalise_idft`** (`pyfftwCall`, executed by
+the op `pyfftwcall` and compared exactly with direct calls of the real function in the stream
+`pyfftw_call/direct/*`): the forward transform is the plain sum with `w` and is NEVER scaled — also
+when `normalise_idft=False`, where the code calls the plan with `normalise_idft=True` —, the
+backward transform is the plain sum with `w⁻¹`, divided by `n` iff `normalise_idft`.  Case split
+over the modelled flags, for every length and input. -/
+theorem C18.pyfftw_call_normalisation {K : Type} [Field K] (w winv : K) (n : Nat) (backward ni : Bool)
+    (f : Nat → K) (k : Nat) :
+    pyfftwCall backward ni w winv n f k =
+      if backward then (if ni then dftSum winv n f k / (n : K) else dftSum winv n f k)
+      else dftSum w n f k := by
+  cases backward <;> cases ni <;> simp [pyfftwCall, fftwPlan]
+
+example : pyfftwCall true false (-1 : ℚ) (-1) 2 (fun j => if j = 0 then 1 else 3) 1 = -2 := by
+  rw [C18.pyfftw_call_normalisation]; norm_num [dftSum, sumTo, pw]
+
+
 /-- The range built by the constructor always fits the array the transform produces: for
 real and complex domains, with and without the `halfcomplex` argument (on complex domains the
 argument has no effect, as documented), every length. -/
